@@ -146,12 +146,20 @@ PrescProcessing ==
                    /\ st'.act = pr[1]
                    /\ ResumableRule(st.act, st.res, st'.act, st'.res, pr[2], Touched(st'))
 PrescReset == lab'[1] = "reset" => st'.act = FreshConfig(EnvOf(st')) /\ st'.res = [c \in Compos |-> 0]
+\* D20 (open finding): a request issued during the initial activation into a region that already carries requested
+\* sub-states - because the activation has just resolved it, or merely evaluated it (utility / random reports set the
+\* requested prongs of the branches they weigh) - is forwarded along those instead of being resolved by its kind, and
+\* is not recorded if that changes nothing.  With the switch on, the exact configuration of an activation with one
+\* substituted request is not prescribed (its destination must still be active).
 PrescEnter ==
     (lab'[1] = "enter" /\ ~LimitHit(st')) =>
-          LET trs == Transitions(EffectiveBatch(st'.rounds, 1)) IN
+          LET trs   == Transitions(EffectiveBatch(st'.rounds, 1))
+              fresh == FreshConfig(EnvOf(st'))
+              intoRequested == "RequestIntoRequestedRegion" \in Dev /\ Len(trs) = 1
+          IN
           /\ DestinationsActive(trs, st', [c \in Compos |-> 0])
-          /\ Len(trs) <= 1 =>
-                st'.act = Prescribed(FreshConfig(EnvOf(st')), [c \in Compos |-> 0], EffectiveBatch(st'.rounds, 1), EnvOf(st'))[1]
+          /\ (Len(trs) <= 1 /\ ~intoRequested) =>
+                st'.act = Prescribed(fresh, [c \in Compos |-> 0], EffectiveBatch(st'.rounds, 1), EnvOf(st'))[1]
 PrescIdle == lab'[1] \in {"query", "queue", "succeed", "fail"} => st'.act = st.act /\ st'.res = st.res
 
 P_Prescribed == [][ ph = "chosen" => PrescProcessing /\ PrescReset /\ PrescEnter /\ PrescIdle ]_vars
